@@ -35,20 +35,20 @@ TEXT_ONLY_METHODS = {"split", "rstrip", "strip", "startswith", "format", "join",
 
 def check(ctx):
     repo = ctx.repo
-    r17_1(ctx)
-    r17_2(ctx)
-    r17_3(ctx)
-    r17_5(ctx)
-    r17_7(ctx)
+    ctx.run(r17_1)
+    ctx.run(r17_2)
+    ctx.run(r17_3)
+    ctx.run(r17_5)
+    ctx.run(r17_7)
     # R17.4
     run = c03.index_run(ctx, "R17.4")
     info = c03.r03_1(ctx, run)
-    c03.r03_6(ctx, run, info)
+    ctx.run(c03.r03_6, run, info)
     from . import sort_common as sc
     from . import c09
 
     m = sc.build(ctx, "R17.4")
-    c09.r09_1(ctx, m)
+    ctx.run(c09.r09_1, m)
     ctx.not_decided += [
         "equality of records across BGZF block boundaries and pysam's readline contract",
         "that gzip.open(..., 'rt') yields the same lines as open() on the decompressed file (standard library)",
@@ -56,8 +56,8 @@ def check(ctx):
     # mechanisms this property rests on (see shared.py): a change there is reported here as well
     from . import shared as _sh
 
-    _sh.gaf_reader(ctx)
-    _sh.graph_loader(ctx)
+    ctx.run(_sh.gaf_reader)
+    ctx.run(_sh.graph_loader)
 
 
 def r17_1(ctx):
